@@ -341,7 +341,7 @@ class GenerateDecoy(Contract):
                          _decoy_pool=GhostPool('decoy_pool', st.log), _summary=st.summary, decoy_db=st.decoy_db,
                          enzyme='trypsin')
         st.target_seq = SymObj('Seq', tag_='target')
-        st.rec = SymObj('SeqRecord', seq=st.target_seq, description='ENST|SNV-1-A-T')
+        st.rec = SymObj('SeqRecord', seq=st.target_seq, description='ENST|SNV-1-A-T some text', id='ENST|SNV-1-A-T', name='ENST|SNV-1-A-T')
         st.args = [st.self, st.rec]
         st.made = []
         self._cur = st
@@ -385,14 +385,14 @@ class GenerateDecoy(Contract):
         e.prove('C20/decoy/exactly-one-decoy-record', len(st.decoy_db) == 1)
         if len(st.decoy_db) == 1:
             d = st.decoy_db[0]
-            want = 'DECOY_ENST|SNV-1-A-T' if st.position == 'prefix' else 'ENST|SNV-1-A-T' + 'DECOY_'
+            want = 'DECOY_ENST|SNV-1-A-T some text' if st.position == 'prefix' else 'ENST|SNV-1-A-T some text' + 'DECOY_'
             e.prove('C20/decoy/header-is-target-header-with-decoy-string', d.fields['description'] == want)
             e.prove('C20/decoy/sequence-is-a-rearrangement-of-this-target',
                     d.fields['seq'] in st.made and d.fields['seq'] is st.made[-1] and d.fields['seq'].fields['kind'] == st.method)
             adds = [x for x in st.log if x[0] == 'decoy_pool' and x[1] == 'add']
             e.prove('C20/decoy/registered-in-decoy-pool', len(adds) == 1 and adds[0][2][0] is d.fields['seq'])
         e.prove('C20/decoy/counted', st.summary.fields['n_decoy'] == st.n_decoy0 + 1)
-        e.prove('C20/decoy/target-record-unchanged', st.rec.fields['seq'] is st.target_seq and st.rec.fields['description'] == 'ENST|SNV-1-A-T')
+        e.prove('C20/decoy/target-record-unchanged', st.rec.fields['seq'] is st.target_seq and st.rec.fields['description'] == 'ENST|SNV-1-A-T some text')
 
     def post_raise(self, I, st, exc):
         I.e.prove('C20/decoy/raises-only-for-unsupported-method', exc.cls == 'ValueError' and st.method == 'other')
@@ -629,7 +629,7 @@ class NativeDecoy(NativeCheck):
                 inp_p = os.path.join(tmp, name + '.fasta')
                 with open(inp_p, 'w') as fh:
                     for i, p in enumerate(peps):
-                        fh.write(f'>H{abs(hash(p)) % 10 ** 6}|{p[:3]}\n{p}\n')
+                        fh.write(f'>H{abs(hash(p)) % 10 ** 6}|{p[:3]} free text {len(p) % 2}\n{p}\n')
                 from pathlib import Path
                 a = argparse.Namespace(command='decoyFasta', input_path=Path(inp_p), output_path=Path(os.path.join(tmp, name + '.out.fasta')),
                                        decoy_string='DECOY_', decoy_string_position=inp['position'], method=inp['method'],
@@ -650,7 +650,7 @@ class NativeDecoy(NativeCheck):
             r1 = run(peps, 'a', inp['seed'])
             r2 = run(list(reversed(peps)), 'b', inp['seed'])
             r3 = run(peps, 'c', inp['seed'])
-            hdr = {p: f'H{abs(hash(p)) % 10 ** 6}|{p[:3]}' for p in peps}
+            hdr = {p: f'H{abs(hash(p)) % 10 ** 6}|{p[:3]} free text {len(p) % 2}' for i, p in enumerate(peps)}
             targets = [(h, s) for h, s in r1 if 'DECOY_' not in h]
             decoys = [(h, s) for h, s in r1 if 'DECOY_' in h]
             if sorted(targets) != sorted((hdr[p], p) for p in peps):
